@@ -14,7 +14,7 @@ import (
 )
 
 var c10Families = []string{"valid", "mutated", "bytes", "natural-join", "union-chain", "cte-cycle", "brackets", "quotes", "from-path", "parallel-fail", "bg-fail", "await", "distinct-subq-star",
-	"object-compare", "group-object", "limit-weird", "deep-nesting", "doc-shape", "native-types", "nil-doc", "vars-nil", "selector-in-sql", "parallel-fresh", "reexec", "parallel-vars", "many-inner"}
+	"object-compare", "group-object", "limit-weird", "deep-nesting", "doc-shape", "native-types", "nil-doc", "vars-nil", "selector-in-sql", "parallel-fresh", "reexec", "parallel-vars", "many-inner", "marker-select"}
 
 func init() {
 	floor := []string{}
@@ -380,6 +380,19 @@ func c10Build(c *fw.Case) c10Case {
 		cs.doc = map[string]any{"mm": mm}
 		cs.sql = gen.Pick(c.R, []string{"SELECT * FROM mm", "SELECT a, ASYNC.VBG(s1) AS w FROM mm", "SELECT a, AWAIT(ASYNC.VBG(s1)) AS w FROM mm", "SELECT *, (a + 1) AS c FROM mm WHERE a >= 3", "SELECT a, (SELECT b FROM dual) AS q FROM mm"})
 		cs.opts = OptSet{Idiomatic: c.Chance(0.3)}
+	case "marker-select":
+		// the back-navigation marker selected as a value and carried through
+		// the stages that fingerprint, compare or sort whole rows
+		inner := gen.Pick(c.R, []string{"(SELECT `<-` FROM dual)", "(SELECT `<-` AS up FROM dual)", "(SELECT `<-` AS up, e FROM arr)", "ARRAY(`<-`)", "`<-`"})
+		cs.sql = gen.Pick(c.R, []string{
+			"WITH a AS (SELECT " + inner + " AS x FROM t1) SELECT DISTINCT * FROM a",
+			"WITH a AS (SELECT rid, " + inner + " AS x FROM t1), b AS (SELECT " + inner + " AS y, x FROM a) SELECT DISTINCT * FROM b",
+			"WITH a AS (SELECT rid, " + inner + " AS x FROM t1) SELECT x, COUNT(*) AS n FROM a GROUP BY x",
+			"WITH a AS (SELECT rid, " + inner + " AS x FROM t1) SELECT * FROM a l JOIN a r ON l.x = r.x",
+			"WITH a AS (SELECT rid, " + inner + " AS x FROM t1) SELECT * FROM a ORDER BY x",
+			"SELECT DISTINCT " + inner + " AS x FROM t1",
+			"WITH a AS (SELECT " + inner + " AS x FROM t1) SELECT x FROM a UNION SELECT x FROM a",
+		})
 	case "selector-in-sql":
 		cs.sql = "SELECT `" + gen.Pick(c.R, []string{"arr[9].e", "arr[each].e.x", "obj{k|date}", "obj.k.z", "arr[(2:1)]", "s1[0]", "nosuch=>arr", "arr::[5]", "'", "arr[", "obj{", "<-<-<-<-x"}) + "` AS v FROM t1"
 	}
